@@ -1054,6 +1054,14 @@ func (r *runner) forcedNear(emit func(*caseJ)) {
 			}
 		}
 	}
+	// identities of different lengths, sorted bytewise as the honest producers sort them; the
+	// numeric order of the big-endian values is another one (0100 < ff bytewise, 256 > 255)
+	for _, typ := range []string{"shares", "keys"} {
+		for _, ids := range [][]string{{"0100", "ff"}, {"010000", "ffff"}, {"0100", "02"}, {"00ff", "ff"}, {"0100", "02", "ff"}, {"00ff", "010000", "ffff"},
+			{"01", "0100"}, {"05", "06"}, {"", "00", "0000"}} {
+			emit(&caseJ{Kind: "core", Flavour: "core", State: st, Msg: mk(typ, ids...), Origin: "forced:mixed-length-identities"})
+		}
+	}
 	// Gnosis / service nodes: the first family (Gnosis identities are 52 bytes: 32 + 20 of the sender)
 	for _, fl := range []string{"gnosis", "service"} {
 		for _, typ := range []string{"shares", "keys"} {
